@@ -272,6 +272,40 @@ def model_apply(op, mp, vals):
         return 'table', T(), op['t']
     if k == 'copy':
         return 'table', T().copy(), None
+    if k == 'new_pairs':
+        r = _bcast([(c, v) for c, v in vals['pairs']])
+        return ('error', r.tp) if isinstance(r, MErr) else ('table', r, None)
+    if k == 'new_from_table':
+        return 'table', T().copy(), None
+    if k == 'update':
+        t = T()
+        for c, v in vals['upd'].items():
+            vv = v if isinstance(v, list) else [v]
+            if len(vv) == 1 and t.n != 1 and t.cols:
+                vv = vv * t.n
+            if not t.cols:
+                t.cols = [c]; t.rows = [{c: x} for x in vv]
+            else:
+                if len(vv) != t.n:
+                    raise HarnessError('update with a wrong length is not generated')
+                if c not in t.cols:
+                    t.cols.append(c)
+                for r, x in zip(t.rows, vv):
+                    r[c] = x
+        return 'inplace', None
+    if k == 'and':
+        t = T()
+        cs = [c for c in t.cols if c in op['cs']]
+        if not cs:
+            raise HarnessError('empty intersection is not generated')
+        return 'table', MT(cs, [{c: r[c] for c in cs} for r in t.rows]), None
+    if k == 'or':
+        t = T()
+        spec = [(c, t.col(c)) for c in t.cols if c not in vals['other']] + [(c, v) for c, v in vals['other'].items()]
+        order = [c for c in t.cols] + [c for c in vals['other'] if c not in t.cols]
+        d = dict(spec)
+        r = _bcast([(c, d[c]) for c in order])
+        return ('error', r.tp) if isinstance(r, MErr) else ('table', r, None)
     raise HarnessError('unknown op %s' % k)
 
 
@@ -300,7 +334,10 @@ def real_apply(op, pool, vals):
         T()[op['c']] = pool[op['s']][op['sc']]
         return None
     if k == 'del':
-        del T()[op['c']]
+        if op.get('via') == 'attr':
+            delattr(T(), op['c'])
+        else:
+            del T()[op['c']]
         return None
     if k == 'row':
         return T()[op['i']]
@@ -360,10 +397,25 @@ def real_apply(op, pool, vals):
         return T() + (None if op.get('none', True) else 0)
     if k == 'copy':
         return T().copy()
+    if k == 'new_pairs':
+        return dictable([(c, v) for c, v in vals['pairs']])
+    if k == 'new_from_table':
+        return dictable(T())
+    if k == 'update':
+        if op.get('via') == 'attr':
+            for c, v in vals['upd'].items():
+                setattr(T(), c, v)
+        else:
+            T().update(dict(vals['upd']))
+        return None
+    if k == 'and':
+        return T() & list(op['cs'])
+    if k == 'or':
+        return T() | dict(vals['other'])
     raise HarnessError('unknown op %s' % k)
 
 
-INPLACE = ('setitem', 'setcol_from', 'del')
+INPLACE = ('setitem', 'setcol_from', 'del', 'update')
 VALUE = ('row', 'tuple', 'column', 'get', 'apply')
 ALIAS_OK = ('add_none', 'concat', 'add')
 
@@ -406,7 +458,7 @@ def run_history(case, ctx):
     kinds_on_results, touched_empty = set(), False
     is_result = []
     for step, op in enumerate(case['ops']):
-        vals = {k: codec.dec(op[k], sess) for k in ('recs', 'cols', 'rows', 'v', 'rec', 'dflt') if k in op}
+        vals = {k: codec.dec(op[k], sess) for k in ('recs', 'cols', 'rows', 'v', 'rec', 'dflt', 'pairs', 'upd', 'other') if k in op}
         k = op['op']
         before = contracts.COUNTS['dictable_rectangular']
         try:
@@ -486,7 +538,7 @@ def gen_history(rng, nops):
     sess = codec._Session()
 
     def push(op):
-        vals = {k: codec.dec(op[k], sess) for k in ('recs', 'cols', 'rows', 'v', 'rec', 'dflt') if k in op}
+        vals = {k: codec.dec(op[k], sess) for k in ('recs', 'cols', 'rows', 'v', 'rec', 'dflt', 'pairs', 'upd', 'other') if k in op}
         r = model_apply(op, mp, vals)
         if r[0] == 'table':
             dst = op.get('dst', len(mp))
@@ -541,7 +593,7 @@ def gen_history(rng, nops):
         t = rng.randrange(len(mp))
         m = mp[t]
         dst = rng.randrange(len(mp) + 1) if len(mp) < 4 else rng.randrange(4)
-        k = rng.choice(['setitem', 'setitem', 'setbad', 'setcol_from', 'del', 'row', 'slice', 'slice', 'mask', 'mask', 'ints', 'project', 'tuple',
+        k = rng.choice(['update', 'and', 'or', 'new_pairs', 'new_from_table', 'setitem', 'setitem', 'setbad', 'setcol_from', 'del', 'row', 'slice', 'slice', 'mask', 'mask', 'ints', 'project', 'tuple',
                         'column', 'get', 'derive', 'derive_const', 'apply', 'relabel', 'do', 'drop', 'concat', 'concat', 'add', 'add_record',
                         'add_none', 'copy', 'new', 'new_from_rows_of'])
         free = [c for c in gen.COLS + ['g', 'h'] if c not in m.cols]
@@ -567,7 +619,32 @@ def gen_history(rng, nops):
             if mp[s].cols and m.cols and (mp[s].n == m.n):
                 op = {'op': 'setcol_from', 't': t, 'c': rng.choice(m.cols + free[:1]), 's': s, 'sc': rng.choice(mp[s].cols)}
         elif k == 'del' and m.cols:
-            op = {'op': 'del', 't': t, 'c': rng.choice(m.cols)}
+            op = {'op': 'del', 't': t, 'c': rng.choice(m.cols), 'via': rng.choice(['item', 'attr'])}
+        elif k == 'update':
+            cs = gen.subset(rng, m.cols + free[:2], 1, 2) if m.cols else [rng.choice(gen.COLS)]
+            n_ = m.n if m.cols else rng.choice([0, 1, 3])
+            upd = {}
+            for c in cs:
+                upd[c] = gen.cells(rng, n_) if (rng.random() < 0.6 or not m.cols) else gen.cell(rng)
+            if not m.cols:
+                upd = {cs[0]: gen.cells(rng, n_)}
+            op = {'op': 'update', 't': t, 'upd': upd, 'via': rng.choice(['update', 'attr'])}
+        elif k == 'and' and m.cols:
+            cs = gen.subset(rng, m.cols, 1) + free[:1]
+            op = {'op': 'and', 't': t, 'cs': cs, 'dst': dst}
+        elif k == 'or' and m.cols:
+            other = {}
+            for c in gen.subset(rng, m.cols[:1] + free[:2], 1, 2):
+                r = rng.random()
+                other[c] = gen.cells(rng, m.n) if r < 0.6 else gen.cell(rng) if r < 0.85 else gen.cells(rng, m.n + 2)
+            op = {'op': 'or', 't': t, 'other': other, 'dst': dst}
+        elif k == 'new_pairs':
+            n_ = rng.choice([0, 1, 2, 3])
+            cs = gen.subset(rng, gen.COLS, 1, 3)
+            pairs = [[c, gen.cells(rng, n_) if rng.random() < 0.7 else gen.cell(rng)] for c in cs]
+            op = {'op': 'new_pairs', 'pairs': pairs, 'dst': dst}
+        elif k == 'new_from_table':
+            op = {'op': 'new_from_table', 't': t, 'dst': dst}
         elif k == 'row' and m.n:
             op = {'op': 'row', 't': t, 'i': rng.randrange(-m.n, m.n)}
         elif k == 'slice' and m.cols:
